@@ -105,6 +105,9 @@ func initProperties() {
 				use("NILLOOKUP", "lookups checked", inPkgs("conv/t2j")),
 				use("NATIVEQUOTE", "string escaper retry contract", nil),
 				use("POOLESCAPE", "result copied out of the pooled buffer", inPkgs("conv/t2j")),
+				use("CONSTAFFINITY", "number formatter head-room", nil),
+				use("JSONSTRRAW", "input strings are escaped", inPkgs("conv/t2j")),
+				use("ERRMISMATCH", "the tested error is the assigned one", inPkgs("conv/t2j")),
 			)},
 		{ID: "C04", Title: "Thrift in-place edits change exactly the addressed element",
 			Decides: "every locator loop of the mutators has a not-found exit and no in-place size patch precedes a fallible step (NOTFOUNDEXIT), name->id translation checks the lookup (NILLOOKUP), in-place patching of the caller's bytes is confined to the mutators (INPUTRO), insertion errors propagate (DROPERR).",
@@ -115,6 +118,7 @@ func initProperties() {
 				use("INPUTRO", "patching confined", thriftGeneric),
 				use("DROPERR", "errors propagate", func(o *Obl) bool { return thriftGeneric(o) && mutators(o) }),
 				use("KINDEXH", "key/type switches exhaustive", thriftGeneric),
+				use("SWAPBOTH", "multi-set sort permutes old and new nodes together", thriftGeneric),
 			)},
 		{ID: "C05", Title: "Thrift DOM load/marshal is lossless; DOM edits marshal as edited",
 			Decides: "the by-id slot threshold is compared identically at load, lookup and store (THRESHAGREE), PathNode.marshal covers every thrift type and writes headers before elements (KINDEXH, HDRFIRST), child-slice growth is bounded by the input (ALLOCBOUND), Marshal copies out of the pooled buffer (POOLESCAPE).",
@@ -172,6 +176,9 @@ func initProperties() {
 				use("NILLOOKUP", "lookups checked", inPkgs("conv/p2j")),
 				use("NATIVEQUOTE", "string escaper retry contract", nil),
 				use("POOLESCAPE", "result copied out of the pooled buffer", inPkgs("conv/p2j")),
+				use("CONSTAFFINITY", "number formatter head-room", nil),
+				use("JSONSTRRAW", "input strings are escaped", inPkgs("conv/p2j")),
+				use("ERRMISMATCH", "the tested error is the assigned one", inPkgs("conv/p2j")),
 			)},
 		{ID: "C09", Title: "JSON->Protobuf conversion encodes exactly the value the JSON denotes",
 			Decides: "the visitor's kind switches accept every kind the spec allows for a JSON number/string/bool and map key (KINDEXH), per-kind writer primitives match the spec (RWPAIR), tags use real wire types and map entries use field numbers 1/2 (TAGTYPE, MAPTAG), parse errors are not blanked (DROPERR), unknown = error iff disallowed (NEGPOLARITY).",
@@ -199,6 +206,8 @@ func initProperties() {
 				use("INPUTRO", "patching confined", protoGeneric),
 				use("KINDEXH", "kind switches exhaustive", protoGeneric),
 				use("RWPAIR", "per-kind primitives in key/value encoders", protoGeneric),
+				use("SWAPBOTH", "multi-set sort permutes old and new nodes together", protoGeneric),
+				use("POOLESCAPE", "Marshal copies out of the pooled buffer", protoGeneric),
 			)},
 		{ID: "C11", Title: "Cutting (MarshalTo) yields exactly the projection onto the target schema",
 			Decides: "every success return of thrift marshalTo has consumed from the source and produced output (MUSTCONSUME: identical descriptors must copy, not drop), headers precede elements (HDRFIRST), proto marshalTo finishes its lengths and propagates nested errors (SPECLENPAIR, DROPERR), unknown fields are skipped/rejected per option (UNKNOWNSKIP, NEGPOLARITY), lookups checked (NILLOOKUP), recursion bounded (RECDEPTH), MarshalTo copies out of the pooled buffer (POOLESCAPE).",
@@ -226,6 +235,7 @@ func initProperties() {
 				use("GLOBALWRITE", "no global writes", nil),
 				use("INPUTRO", "input read-only", nil),
 				use("POOLESCAPE", "pooled buffers do not escape", nil),
+				use("POOLRESET", "pooled state fully reset", nil),
 			)},
 		{ID: "C13", Title: "JSON<->binary conversions are mutually inverse on their domains",
 			Decides: "every kind one direction emits as a JSON number/string/bool is accepted from that JSON kind by the inverse direction (KINDINV), both directions use the same key accessor (KEYSRC).",
@@ -234,6 +244,8 @@ func initProperties() {
 				use("KINDINV", "emitted kinds accepted", nil),
 				use("KEYSRC", "same keys both ways", nil),
 				use("NATIVEQUOTE", "string escaper retry contract", nil),
+				use("JSONSTRRAW", "input strings are escaped", nil),
+				use("POOLRESET", "pooled converter state fully reset", nil),
 			)},
 		{ID: "C14", Title: "Thrift descriptors mirror the IDL and lookups are exact",
 			Decides: "every name map that is filled is built (BUILDPAIR: without Build every key lookup returns nil), trie/hash Set and Get derive slots through the same helper (SEQAGREE), descriptors are not written after parsing (DESCIMMUT).",
@@ -285,6 +297,7 @@ func initProperties() {
 				use("NATIVERET", "both fail", nil),
 				use("NATIVEQUOTE", "string escaper retry contract", nil),
 				use("CHDRAGREE", "Go constants = C header", nil),
+				use("CONSTAFFINITY", "number formatter head-room", nil),
 			)},
 		{ID: "C19", Title: "Thrift protocol codec: write/read inverse, skip exact, envelope faithful",
 			Decides: "skip width = read width = write width per fixed-size type (WIDTHTABLE), container/field headers precede elements in the generic writers (HDRFIRST), structs are closed with STOP (STRUCTPAIR), casted values are the ones written (CASTUSED), precomputed header/footer issue the same writer sequence as WrapBinaryBody (SEQAGREE), type switches exhaustive (KINDEXH), counts bounded (ALLOCBOUND), no size panics (PANICARG).",
